@@ -28,13 +28,16 @@ CONSTANTS Kinds,      \* subset of {"minmax", "min", "max", "limits"}
           PVals,      \* values offered to p
           LVals,      \* values offered to a limit parameter
           ForbSets,   \* set of sets: values refused by a user check hook (returning None)
+          HookExcs,   \* what the user hook raises: subset of {"badvalue", "hardware", "other"} ("other":
+                      \* no SECoP error but e.g. a ValueError - a driver can raise anything)
           Inits       \* configured start values of the limit parameters: codes 10 * lo + hi
                       \* (10 * Lo + Hi: nothing configured, the datatype bounds are the default)
 
-VARIABLES kind, forb, lo, hi, val, last
-lvars == <<kind, forb, lo, hi, val, last>>
+VARIABLES kind, forb, hexc, lo, hi, val, last
+lvars == <<kind, forb, hexc, lo, hi, val, last>>
 
 LInit == /\ kind \in Kinds /\ forb \in ForbSets
+         /\ hexc \in HookExcs /\ (forb = {} => hexc = "badvalue")   \* without hook nothing to raise
          /\ \E c \in Inits :    \* a limit parameter that does not exist stays at the datatype bound
               /\ lo = (IF kind \in {"minmax", "min", "limits"} THEN c \div 10 ELSE Lo)
               /\ hi = (IF kind \in {"minmax", "max", "limits"} THEN c % 10 ELSE Hi)
@@ -49,13 +52,13 @@ Acceptable(v) == /\ ~Inverted /\ lo <= v /\ v <= hi
 WriteP(v) ==              \* change p v  /  write_p(v)
     /\ IF Acceptable(v) THEN val' = v /\ last' = "ok"
                         ELSE val' = val /\ last' = "refused"
-    /\ UNCHANGED <<kind, forb, lo, hi>>
+    /\ UNCHANGED <<kind, forb, hexc, lo, hi>>
 
 (* writing one of two separate limit parameters *)
 SetOne(newlo, newhi) ==
     /\ \/ lo' = newlo /\ hi' = newhi /\ last' = "ok"
        \/ newlo > newhi /\ UNCHANGED <<lo, hi>> /\ last' = "refused"
-    /\ UNCHANGED <<kind, forb, val>>
+    /\ UNCHANGED <<kind, forb, hexc, val>>
 
 SetMin(v) == kind \in {"minmax", "min"} /\ Lo <= v /\ v <= Hi /\ SetOne(v, hi)
 SetMax(v) == kind \in {"minmax", "max"} /\ Lo <= v /\ v <= Hi /\ SetOne(lo, v)
@@ -68,7 +71,7 @@ SetLimits(a, b, written) ==   \* p_limits := <<a, b>>, one value
     /\ \/ a <= b /\ lo' = a /\ hi' = b /\ last' = "ok"
        \/ a > b /\ UNCHANGED <<lo, hi>> /\ last' = "refused"
        \/ a > b /\ ~written /\ lo' = a /\ hi' = b /\ last' = "ok"
-    /\ UNCHANGED <<kind, forb, val>>
+    /\ UNCHANGED <<kind, forb, hexc, val>>
 
 LNext == \/ \E v \in PVals : WriteP(v)
          \/ \E v \in LVals : SetMin(v) \/ SetMax(v)
